@@ -412,6 +412,8 @@ static int d_savepath(fx_t *F, int v, dv_t *o)
 {
     int n = dvp(o, 0, F->path_cal, X_BASE, 0, "scratch");
     n = dvp(o, n, F->path_nodir, X_FAIL, EM_SYS, "no-such-dir");
+    /* opens, accepts buffered output, fails when it is flushed (ENOSPC) */
+    n = dvp(o, n, "/dev/full", X_FAIL, EM_SYS | EM_LATE, "device-full");
     return n;
 }
 static int d_errfn(fx_t *F, int v, dv_t *o)
@@ -649,6 +651,7 @@ static int d_vdsavepath(fx_t *F, int v, dv_t *o)
 {
     int n = dvp(o, 0, F->path_out, X_BASE, 0, "npd");
     n = dvp(o, n, F->path_nodir, X_FAIL, EM_SYS, "no-such-dir");
+    n = dvp(o, n, "/dev/full", X_FAIL, EM_SYS | EM_LATE, "device-full");
     return n;
 }
 static int d_vdout(fx_t *F, int v, dv_t *o)
